@@ -1241,4 +1241,200 @@ theorem AttachSpec.abs_frame {h h' : Heap} {c v w : Addr} (hs : AttachSpec h c v
   obtain ⟨cw, _, h1w, _, hleaf, _⟩ := hs.written
   exact hap b hb hs.reach_w ⟨cw, h1w, hleaf⟩
 
+/-! ## 7. invariants of every builder call -/
+
+/-- the well-formedness of a document heap -/
+structure Inv (h : Heap) : Prop where
+  closed : h.Closed
+  acyclic : h.Acyclic
+  mapsOk : h.MapsOk
+  nilOk : h.NilOk
+
+/-- the call is made on an existing cell, and the node it attaches (if any) exists and reaches no
+    container / list of the graph below the handle — in particular not the cell it is stored in -/
+def HOp.Ok (h : Heap) (op : HOp) : Prop :=
+  op.target < h.size ∧
+    ∀ v, op.value = some v → v < h.size ∧ ∀ w, Reach h op.target w → Composite h w → ¬ Reach h v w
+
+theorem reach_of_no_kids {h : Heap} {a b : Addr} {c : Cell} (hg : h.get? a = some c) (hk : c.kids = [])
+    (hr : Reach h a b) : b = a := by
+  cases hr with
+  | refl _ => rfl
+  | step hg' hk' _ =>
+    rw [hg] at hg'
+    cases Option.some.inj hg'
+    rw [hk] at hk'; cases hk'
+
+theorem closed_alloc {h : Heap} (hc : h.Closed) {c0 : Cell} (hk : ∀ k ∈ c0.kids, k < h.size) :
+    (h.alloc c0).1.Closed := by
+  intro a cell hg k hkm
+  rw [size_alloc]
+  rcases get?_alloc hg with ⟨_, hg'⟩ | ⟨_, rfl⟩
+  · exact Nat.lt_succ_of_lt (hc a cell hg' k hkm)
+  · exact Nat.lt_succ_of_lt (hk k hkm)
+
+theorem AttachSpec.inv {h h' : Heap} {c v w : Addr} (hs : AttachSpec h c v w h') (hi : Inv h) (hv : v < h.size)
+    (hvw : ¬ Reach h v w) : Inv h' :=
+  ⟨hs.closed hi.closed hv (get?_lt hi.nilOk), hs.acyclic hi.closed hi.acyclic hi.nilOk hv hvw,
+    hs.mapsOk hi.mapsOk, hs.nilOk hi.nilOk⟩
+
+theorem ShrinkSpec.inv {h h' : Heap} (hs : ShrinkSpec h h') (hi : Inv h) : Inv h' :=
+  ⟨hs.closed hi.closed, hs.acyclic hi.acyclic, hs.mapsOk hi.mapsOk, hs.nilOk hi.nilOk⟩
+
+theorem AttachSpec.composite_w {h h' : Heap} {c v w : Addr} (hs : AttachSpec h c v w h') : Composite h w := by
+  obtain ⟨cw, _, h1w, _, hleaf, _⟩ := hs.written
+  exact ⟨cw, h1w, hleaf⟩
+
+/-- a new empty cell attached below `c` -/
+theorem attach_new_inv {h h2 : Heap} {c w : Addr} {c0 : Cell} (hk : c0.kids = [])
+    (hs0 : ∀ kvs, c0 = .cont kvs → AMap.Sorted kvs)
+    (hs : AttachSpec (h.alloc c0).1 c h.size w h2) (hi : Inv h) (hclt : c < h.size) : Inv h2 := by
+  have hl := le_alloc h c0
+  obtain ⟨rank, hr⟩ := hi.acyclic
+  have hi1 : Inv (h.alloc c0).1 :=
+    ⟨closed_alloc hi.closed (by rw [hk]; intro k hkm; cases hkm), ⟨rank, rankedBy_alloc_empty hr hk⟩,
+      mapsOk_alloc hi.mapsOk hs0, nilOk_mono hi.nilOk hl⟩
+  refine hs.inv hi1 (by rw [size_alloc]; exact Nat.lt_succ_self _) ?_
+  intro hbw
+  have hwb : w = h.size := reach_of_no_kids (get?_alloc_new h c0) hk hbw
+  have hwlt : w < h.size := reach_lt hi.closed (reach_of_le hl hi.closed hs.reach_w hclt) hclt
+  exact Nat.lt_irrefl _ (hwb ▸ hwlt)
+
+theorem hstep_inv {h h' : Heap} {op : HOp} {ret : Option Addr} (hi : Inv h) (hok : op.Ok h)
+    (he : hstep h op = .ok (h', ret)) : Inv h' := by
+  obtain ⟨rank, hr⟩ := hi.acyclic
+  obtain ⟨htl, hval⟩ := hok
+  -- unwrap `outcomeOfOption ((x).map f) = .ok (h', ret)`
+  have unwrap : ∀ {α : Type} (o : Option α) (f : α → Heap × Option Addr),
+      outcomeOfOption (o.map f) = .ok (h', ret) → ∃ x, o = some x ∧ f x = (h', ret) := by
+    intro α o f hx
+    cases o with
+    | none => simp [outcomeOfOption] at hx
+    | some x => exact ⟨x, rfl, by simpa [outcomeOfOption] using hx⟩
+  cases op with
+  | addValue c name v =>
+    obtain ⟨x, hx, hf⟩ := unwrap _ _ he
+    cases hf
+    obtain ⟨hv, hnr⟩ := hval v rfl
+    obtain ⟨w, spec⟩ := addH_spec hr hi.nilOk hi.mapsOk hx
+    exact spec.inv hi hv (hnr w spec.reach_w spec.composite_w)
+  | addValueAt c path v =>
+    obtain ⟨x, hx, hf⟩ := unwrap _ _ he
+    cases hf
+    obtain ⟨hv, hnr⟩ := hval v rfl
+    obtain ⟨w, spec⟩ := addAtSegsH_spec hi.closed hr hi.nilOk hi.mapsOk hv _ c _ (Ytk.splitPath_ne_nil path) htl hx
+    exact spec.inv hi hv (hnr w spec.reach_w spec.composite_w)
+  | addContainer c name =>
+    obtain ⟨x, hx, hf⟩ := unwrap _ _ he
+    obtain ⟨h2, b⟩ := x
+    cases hf
+    obtain ⟨rfl, w, spec⟩ := addContainerH_spec hr hi.nilOk hi.mapsOk hx
+    exact attach_new_inv rfl (fun kvs hk => by cases hk; exact .nil) spec hi htl
+  | addList c name =>
+    obtain ⟨x, hx, hf⟩ := unwrap _ _ he
+    obtain ⟨h2, b⟩ := x
+    cases hf
+    obtain ⟨rfl, w, spec⟩ := addListH_spec hr hi.nilOk hi.mapsOk hx
+    exact attach_new_inv rfl (fun kvs hk => by cases hk) spec hi htl
+  | remove c name =>
+    obtain ⟨x, hx, hf⟩ := unwrap _ _ he
+    cases hf
+    exact (remove_spec hx).inv hi
+  | removeAt c path =>
+    obtain ⟨x, hx, hf⟩ := unwrap _ _ he
+    cases hf
+    unfold removeAtH at hx
+    split at hx
+    · exact (removeAtSegsH_spec _ c _ hx).inv hi
+    · cases hx
+  | child c name =>
+    simp only [hstep, Outcome.ok.injEq, Prod.mk.injEq] at he
+    obtain ⟨rfl, _⟩ := he
+    exact hi
+  | lookup c path =>
+    simp only [hstep, Outcome.ok.injEq, Prod.mk.injEq] at he
+    obtain ⟨rfl, _⟩ := he
+    exact hi
+  | listSet l idx v =>
+    obtain ⟨x, hx, hf⟩ := unwrap _ _ he
+    cases hf
+    obtain ⟨hv, hnr⟩ := hval v rfl
+    have spec := listSet_spec hx
+    exact spec.inv hi hv (hnr l spec.reach_w spec.composite_w)
+  | listMustSet l idx v =>
+    simp only [hstep] at he
+    cases hms : listMustSetH h l idx v with
+    | ok x =>
+      rw [hms] at he
+      simp only [Outcome.map, Outcome.ok.injEq, Prod.mk.injEq] at he
+      obtain ⟨rfl, _⟩ := he
+      obtain ⟨hv, hnr⟩ := hval v rfl
+      have spec := listMustSetH_spec hms
+      exact spec.inv hi hv (hnr l spec.reach_w spec.composite_w)
+    | err => rw [hms] at he; simp [Outcome.map] at he
+    | panic => rw [hms] at he; simp [Outcome.map] at he
+  | listAppend l v =>
+    obtain ⟨x, hx, hf⟩ := unwrap _ _ he
+    cases hf
+    obtain ⟨hv, hnr⟩ := hval v rfl
+    have spec := listAppend_spec hx
+    exact spec.inv hi hv (hnr l spec.reach_w spec.composite_w)
+  | listClear l =>
+    obtain ⟨x, hx, hf⟩ := unwrap _ _ he
+    cases hf
+    exact (listClear_spec hx).inv hi
+  | compact c =>
+    obtain ⟨x, hx, hf⟩ := unwrap _ _ he
+    cases hf
+    exact (compactF_spec _ _ c _ hx).inv hi
+
+/-- a history in which every call is `Ok` in the heap it is applied to -/
+inductive SafeRun : Heap → List HOp → Heap → Prop
+  | nil (h : Heap) : SafeRun h [] h
+  | cons {h h1 h' : Heap} {op : HOp} {ops : List HOp} {ret : Option Addr} :
+      op.Ok h → hstep h op = .ok (h1, ret) → SafeRun h1 ops h' → SafeRun h (op :: ops) h'
+
+theorem SafeRun.inv {h h' : Heap} {ops : List HOp} (hrun : SafeRun h ops h') (hi : Inv h) : Inv h' := by
+  induction hrun with
+  | nil _ => exact hi
+  | cons hok he _ ih => exact ih (hstep_inv hi hok he)
+
+theorem SafeRun.hrun_ok {h h' : Heap} {ops : List HOp} (hsr : SafeRun h ops h') : hrun h ops = .ok h' := by
+  induction hsr with
+  | nil _ => rfl
+  | cons _ he _ ih => simp only [Ytk.Heap.hrun, he, ih]
+
+/-! ## 8. handles: a call on a handle IS the path-level call from any container above it -/
+
+theorem ancestorH_spec {h : Heap} (v : Addr) : ∀ (segs : List String) (c x : Addr), ancestorH h c segs = some x →
+    ∃ last, segs.getLast? = some last ∧ addAtSegsH h c segs v = addH h x last v ∧
+      removeAtSegsH h c segs = Ytk.Heap.remove h x last ∧ lookupSegsH h c segs = childH h x last
+  | [], _, _, ha => by simp [ancestorH] at ha
+  | [s], c, x, ha => by
+    simp only [ancestorH, Option.some.injEq] at ha; subst ha
+    exact ⟨s, rfl, rfl, rfl, rfl⟩
+  | s :: t :: rest, c, x, ha => by
+    simp only [ancestorH] at ha
+    cases hcc : contChildH h c s with
+    | none => simp [hcc] at ha
+    | some y =>
+      simp only [hcc] at ha
+      obtain ⟨last, hl, h1, h2, h3⟩ := ancestorH_spec v (t :: rest) y x ha
+      refine ⟨last, by rw [List.getLast?_cons_cons]; exact hl, ?_, ?_, ?_⟩
+      · simp only [addAtSegsH, hcc]; exact h1
+      · simp only [removeAtSegsH, hcc]; exact h2
+      · simp only [lookupSegsH, hcc]; exact h3
+
+theorem ancestorH_reach {h : Heap} : ∀ (segs : List String) (c x : Addr), ancestorH h c segs = some x → Reach h c x
+  | [], _, _, ha => by simp [ancestorH] at ha
+  | [s], c, x, ha => by
+    simp only [ancestorH, Option.some.injEq] at ha; subst ha; exact .refl _
+  | s :: t :: rest, c, x, ha => by
+    simp only [ancestorH] at ha
+    cases hcc : contChildH h c s with
+    | none => simp [hcc] at ha
+    | some y =>
+      simp only [hcc] at ha
+      exact (childH_reach (contChildH_some hcc).1).trans (ancestorH_reach (t :: rest) y x ha)
+
 end Ytk.Heap
